@@ -149,6 +149,10 @@ def render():
             text = "(* SOURCE UNREADABLE: %s *)\nDefinition %s_UNTRANSLATABLE : unit := tt." % (
                 str(e).replace("*)", "* )"), coqname)
             status[coqname] = "unreadable: %s" % e
+        except Exception as e:  # noqa  a translator defect must not take the other properties' checks down: fail closed
+            text = "(* TRANSLATOR FAILED: %s *)\nDefinition %s_UNTRANSLATABLE : unit := tt." % (
+                repr(e).replace("*)", "* )"), coqname)
+            status[coqname] = "translator failed: %r" % e
         lines += ["(* from %s *)" % origin, text, ""]
     return "\n".join(lines), status
 
